@@ -41,6 +41,7 @@ func main() {
 	n := flag.Int("n", 300, "number of generated cases (per stream family)")
 	per := flag.Int("per", 100, "cases per Coq chunk")
 	exhaustive := flag.Bool("exhaustive", false, "C09: all fault pairs; C10: every cancellation point")
+	corpus := flag.String("corpus", "", "JSON list of regression cases (witnesses of fixed findings), run first")
 	replay := flag.String("replay", "", "replay a JSON case file and print implementation result + coq-case")
 	flag.Parse()
 	scalibrlog.SetLogger(quiet{})
@@ -70,6 +71,30 @@ func main() {
 
 	r := rand.New(rand.NewSource(*seed))
 	var cases []*Case
+	if *corpus != "" {
+		b, err := os.ReadFile(*corpus)
+		if err != nil {
+			panic(err)
+		}
+		var cs []*Case
+		if err := json.Unmarshal(b, &cs); err != nil {
+			panic(err)
+		}
+		for _, c := range cs {
+			if c.Req == nil {
+				c.Req = [][2]string{}
+			}
+			if c.Extract == nil {
+				c.Extract = []XEntry{}
+			}
+			c.Group = 0
+		}
+		// keep chunk alignment of grouped streams: pad the corpus to a multiple of 5 with empty-root cases
+		for len(cs)%5 != 0 {
+			cs = append(cs, &Case{Stream: "regression", Roots: []*Node{dir(".")}, Exts: []string{"e0"}, Req: [][2]string{}, Extract: []XEntry{}})
+		}
+		cases = append(cases, cs...)
+	}
 	switch *prop {
 	case "C01":
 		cases = append(cases, fixedC01()...)
